@@ -428,7 +428,7 @@ pub fn c14(ctx: &mut Ctx) {
         // output segment: lengths that agree with the honest one (or with 0) in the low machine word
         {
             let (ob, oe) = (getf("segments[2].begin_addr"), getf("segments[2].stop_ptr"));
-            for (nm, v) in [("output:stop+2^64", oe + models::pow2(64)), ("output:stop+k*2^64", oe + models::pow2(64) * Felt::from(rng.range(2, 1 << 30))), ("output:stop+2^128", oe + models::pow2(128)), ("output:stop=begin-1", ob - Felt::ONE), ("output:stop=begin+2^64", ob + models::pow2(64))] {
+            for (nm, v) in [("output:stop+2^64", oe + models::pow2(64)), ("output:stop+k*2^64", oe + models::pow2(64) * Felt::from(rng.range(2, 1 << 30))), ("output:stop+2^128", oe + models::pow2(128)), ("output:stop=begin-1", ob - Felt::ONE), ("output:stop=begin+2^64", ob + models::pow2(64)), ("output:stop=begin+2^64-1", ob + models::pow2(64) - Felt::ONE), ("output:stop=begin+2^64-5", ob + models::pow2(64) - Felt::from(5u64)), ("output:stop=begin+2^63", ob + models::pow2(63))] {
                 faults.push((nm.into(), vec![setf("segments[2].stop_ptr".into(), v)], false));
             }
             faults.push(("output:begin+2^64".into(), vec![setf("segments[2].begin_addr".into(), ob + models::pow2(64))], false));
@@ -436,6 +436,8 @@ pub fn c14(ctx: &mut Ctx) {
             faults.push(("program:begin+2^64".into(), vec![setf("segments[0].begin_addr".into(), pb + models::pow2(64))], false));
             faults.push(("program:stop+2^64".into(), vec![setf("segments[0].stop_ptr".into(), pe + models::pow2(64))], false));
             let (eb, ee) = (getf("segments[1].begin_addr"), getf("segments[1].stop_ptr"));
+            faults.push(("execution:begin=2^64-2".into(), vec![setf("segments[1].begin_addr".into(), models::pow2(64) - Felt::TWO)], false));
+            faults.push(("execution:begin=2^63+3,output:2^63".into(), vec![setf("segments[1].begin_addr".into(), models::pow2(63) + Felt::THREE), setf("segments[2].stop_ptr".into(), ob + models::pow2(63))], false));
             faults.push(("execution:begin+2^64".into(), vec![setf("segments[1].begin_addr".into(), eb + models::pow2(64))], false));
             faults.push(("execution:stop+2^64".into(), vec![setf("segments[1].stop_ptr".into(), ee + models::pow2(64))], false));
         }
